@@ -702,11 +702,86 @@ class Executor:
     def st_Continue(self, st, frame):
         raise ContinueSignal()
 
+    _EXC_PARENTS = {
+        "KeyError": "LookupError", "IndexError": "LookupError", "ZeroDivisionError": "ArithmeticError", "OverflowError": "ArithmeticError",
+        "FloatingPointError": "ArithmeticError", "NotImplementedError": "RuntimeError", "RecursionError": "RuntimeError",
+        "ModuleNotFoundError": "ImportError", "FileNotFoundError": "OSError", "LinAlgError": "ValueError", "UnicodeError": "ValueError",
+    }
+
+    def _handler_names(self, h):
+        if h.type is None:
+            return None  # bare except: everything
+        ts = h.type.elts if isinstance(h.type, ast.Tuple) else [h.type]
+        return {ast.unparse(t).split(".")[-1] for t in ts}
+
+    def _handler_for(self, st, exc_name):
+        nm = (exc_name or "?").split(".")[-1]
+        chain = [nm]
+        while chain[-1] in self._EXC_PARENTS:
+            chain.append(self._EXC_PARENTS[chain[-1]])
+        chain += ["Exception", "BaseException"]
+        for h in st.handlers:
+            names = self._handler_names(h)
+            if names is None or names & set(chain):
+                return h
+        return None
+
+    def _run_handler(self, h, frame, exc_name):
+        self.emit("except", h, exc=exc_name)
+        if h.name:
+            frame.env[h.name] = OpaqueV(f"exc({exc_name})", {"kind": "exception", "exc": exc_name})
+        self.exec_block(h.body, frame)
+
     def st_Try(self, st, frame):
-        raise Undecided("try statement", st)
+        """try / except / else / finally.  Explicit raises (of the analysed code, through any depth of calls) are matched
+        against the handlers by name and the small built-in hierarchy above.  Library calls can raise too, which the
+        engine does not model call by call: when the body completes and there are handlers, one further path per handler
+        is explored in which that handler runs after the body's effects (an over-approximation of 'some call in the
+        body raised').  `finally` runs on every way out that the engine models (fall-through, return, raise, break,
+        continue)."""
+        def final():
+            if st.finalbody:
+                self.exec_block(st.finalbody, frame)
+
+        try:
+            try:
+                self.exec_block(st.body, frame)
+            except RaiseSignal as r:
+                h = self._handler_for(st, r.exc_name)
+                if h is None:
+                    raise
+                self._run_handler(h, frame, r.exc_name)
+            else:
+                taken = None
+                for k, h in enumerate(st.handlers):
+                    names = self._handler_names(h)
+                    label = "|".join(sorted(names)) if names else "any"
+                    c = Cond("opq", f"library-raise({label})@{frame.func.qualname if frame.func else '?'}:try{getattr(st, 'lineno', 0)}.{k}")
+                    if self.decide(c, st):
+                        taken = h
+                        break
+                if taken is not None:
+                    self._run_handler(taken, frame, "|".join(sorted(self._handler_names(taken) or {"Exception"})))
+                else:
+                    self.exec_block(st.orelse, frame)
+        except (ReturnSignal, RaiseSignal, BreakSignal, ContinueSignal):
+            final()
+            raise
+        final()
 
     def st_With(self, st, frame):
-        raise Undecided("with statement", st)
+        """with E [as v]: body.  Context managers of the library (np.errstate, warnings.catch_warnings, nullcontext, open
+        locks, ...) do not change values: the context expression is evaluated (its calls are recorded like any other),
+        the optional target is bound to an opaque handle, and the body runs in the same frame.  A context manager that
+        is an object of the analysed code is not modelled."""
+        for it in st.items:
+            v = self.ev(it.context_expr, frame)
+            if isinstance(v, ObjV) and not v.abstract:
+                raise Undecided("with statement over an object of the analysed code", st)
+            self.emit("with_enter", st, ctx=v)
+            if it.optional_vars is not None:
+                self.assign(it.optional_vars, v if isinstance(v, (OpaqueV, Num)) else OpaqueV(f"ctx({valkey(v)})"), frame, st)
+        self.exec_block(st.body, frame)
 
     def st_Delete(self, st, frame):
         for t in st.targets:
@@ -1108,6 +1183,10 @@ class Executor:
             return self.ref_to_val(r, e.id, e)
         if e.id in BUILTIN_NAMES:
             return ExtV("builtins." + e.id)
+        if e.id in ("__name__", "__file__", "__doc__", "__package__", "__qualname__", "__module__"):
+            # module attributes: strings that never reach a numeric result (logger names, messages)
+            mod = getattr(frame.module, "name", None) or "?"
+            return StrV(mod if e.id in ("__name__", "__module__") else None, key=f"{mod}.{e.id}")
         raise Undecided(f"unbound name {e.id}", e)
 
     def ref_to_val(self, r, name, node):
